@@ -347,6 +347,16 @@ fn main() {
         Variant { header_comment: false, raw_lines: vec![], config_file: true },
     ];
     let fl = faults();
+    if args.extra.iter().any(|a| a == "hang-demo") {
+        // outside the claim: a formatter that neither reads its stdin nor exits.  Demonstrates that the
+        // timeout reports a hang (the child is killed afterwards).
+        let f = Fault { name: "never-reads-never-exits", kind: PathKind::Script, script: "exec sleep 30".into(), outcome: "", stdout: Stdout::Irrelevant, large_only: true };
+        let path = install(&scratch.0, &f, 424242);
+        let (o, secs) = run_case(&large, &variants_all[0], Fm::Rustfmt, Some(&path), &cfg, Duration::from_secs(8));
+        println!("hang-demo: observed {} after {secs:.1}s", short(&o));
+        let _ = std::process::Command::new("pkill").arg("-f").arg(path.to_string_lossy().as_ref()).status();
+        std::process::exit(0);
+    }
     let mut fails: Vec<Fail> = vec![];
     let mut hist: BTreeMap<String, u64> = BTreeMap::new();
     let mut evaluations = 0u64;
